@@ -208,6 +208,43 @@ def enumerate_attribute_edits(obj):
             cur = getattr(m, o.name)
             v = (not bool(cur)) if o.size == 1 else (int(cur) + 1) % ((o.max + 1) if o.max is not None else (1 << o.size))
             out.append(["mod", mi, "opt", o.name, v])
+        out.extend(["mod", mi, "pay"] + e for e in payload_sweep(m))
+    return out
+
+
+def payload_sweep(m):
+    """Deterministic type-specific edits (one of every kind the random catalogue knows) for a loaded module."""
+    t = type(m).__name__
+    out = []
+    if t == "MultiSynth":
+        for a, v in (("nv_curve", 7), ("vv_curve", 201), ("np_curve", 40000)):
+            out += [["arr", a, 3, v], ["arr_rebound", a, 5, v], ["arr_whole", a, [(v + i) % (65536 if a == "np_curve" else 256) for i in range(len(getattr(m, a).values))]]]
+    elif t == "WaveShaper":
+        out += [["arr", "curve", 9, 12345], ["arr_rebound", "curve", 200, 1], ["arr_whole", "curve", [(i * 257) % 65536 for i in range(256)]]]
+    elif t == "MultiCtl":
+        out += [["arr", "curve", 256, 0x8000], ["arr_whole", "curve", [min(0x8000, i * 64) for i in range(257)]], ["mcmap", 0, "min", 77], ["mcmap", 15, "max", 0x7000], ["mcmap", 3, "controller", 2]]
+    elif t == "SpectraVoice":
+        for i, (f, v) in enumerate((("freq_hz", 12345), ("volume", 77), ("width", 9), ("type", 3))):
+            out += [["harm", i, f, v], ["harm_rebound", 8 + i, f, v]]
+    elif t == "Fmx":
+        out += [["arr", "custom_waveform", 17, 0.25]]
+    elif t in ("Generator", "AnalogGenerator"):
+        out += [["wave", 0, -128], ["wave", 31, 127]]
+    elif t == "VorbisPlayer":
+        out += [["vdata", "4f676753" + "00" * 40]]
+    elif t == "Sampler":
+        keys = list(m.note_samples.keys())
+        mapped = [i for i, k in enumerate(keys) if m.note_samples[k]]
+        out += [["s_map", 5, 9], ["s_map_tail", 0, 0], ["s_map_tail", (mapped[-1] if mapped else 60), 0], ["s_map_tail", 96, 1], ["s_map_tail", 110, 0x20]]
+        env = {"points": [[0, 0x4000], [10, 0x2000], [300, 0]], "enable": True, "sustain": False, "loop": True, "ctl_index": 3, "gain_pct": 50, "velocity": 1, "sustain_point": 1, "loop_start_point": 0, "loop_end_point": 2}
+        out += [["s_env", "volume", "enable", False], ["s_env", "pitch", "loop", True], ["s_point", "volume", "append", [999, 0x1000]], ["s_env_whole", "volume", env], ["s_env_whole", "fx1", env], ["s_ece_list_whole", [env, env, env, env]]]
+        present = [i for i, x in enumerate(m.samples) if x is not None]
+        smp = {"data": "0102030405060708", "format": "int8", "channels": "mono", "rate": 22050, "loop_start": 1, "loop_len": 2, "loop_type": "forward", "loop_sustain": True, "volume": 33, "finetune": -5, "panning": 7, "relative_note": 3, "reserved2": 0, "start_pos": 1, "name": "6162"}
+        out += [["s_sample_new", 127, smp], ["s_field", "vibrato_depth", 9]]
+        if present:
+            out += [["s_sample_field", present[0], "data", "00" * 10], ["s_sample_field", present[0], "format", "int16"], ["s_sample_field", present[0], "volume", 1], ["s_sample_del", present[-1]]]
+    elif t == "MetaModule":
+        out += [["m_count", 0], ["m_count", 96], ["m_map", 95, 0xFFF0, 7], ["m_label", 0, "cutoff"]] if m.user_defined_controllers else [["m_count", 3], ["m_map", 0, 0xFFF0, 1]]
     return out
 
 
@@ -307,7 +344,7 @@ def run_shard(ctx, desc):
             stride = desc["stride"]
             n = 0
             for i, e in enumerate(all_edits):
-                if i % stride != desc["phase"] % stride and e[0] not in ("cell", "patf", "clonef"):
+                if i % stride != desc["phase"] % stride and e[0] not in ("cell", "patf", "clonef") and not (e[0] == "mod" and e[2] == "pay"):
                     continue
                 case = {"src": "fixture", "file": rel, "edits": [e]}
                 ctx.case()
